@@ -34,28 +34,28 @@ type closureInfo struct {
 }
 
 type State struct {
-	vals    map[ssa.Value]Term
-	locs    map[ssa.Value]Loc
-	tuples  map[ssa.Value][]Term
-	iters   map[ssa.Value]*iterState
-	closures map[string]closureInfo // by SMT term of the closure ref
-	heap    map[string]string // logical -> current SMT symbol
-	consts  []string
-	asserts []string
-	env     map[string]ssa.Value // source name -> SSA value (value or address)
-	envAddr map[string]bool
-	defers  []*ssa.Defer
-	inLoop  map[*ssa.BasicBlock]bool
-	notes   []string
-	pathID  int
-	trace   []string
-	noClosed bool
-	unknownHavoc bool // a call without contract (or `modifies *`) happened: the frame cannot be established
-	freshEpochs map[int]*freshEpoch // epochs created by `modifies fresh`: untouched arrays keep their old content at old objects
-	prevVals map[*ssa.BasicBlock]map[string]Term // loop head -> values of named variables right after the havoc
-	inline     []*ssa.Call // calls of contract-less, loop-free repository functions that are being executed inline
-	localChans []string // channels made by this function that do not escape (see chanEscapes)
-	epoch   int // >0 after a havoc-all: untouched heap variables are unknown, not initial
+	vals         map[ssa.Value]Term
+	locs         map[ssa.Value]Loc
+	tuples       map[ssa.Value][]Term
+	iters        map[ssa.Value]*iterState
+	closures     map[string]closureInfo // by SMT term of the closure ref
+	heap         map[string]string      // logical -> current SMT symbol
+	consts       []string
+	asserts      []string
+	env          map[string]ssa.Value // source name -> SSA value (value or address)
+	envAddr      map[string]bool
+	defers       []*ssa.Defer
+	inLoop       map[*ssa.BasicBlock]bool
+	notes        []string
+	pathID       int
+	trace        []string
+	noClosed     bool
+	unknownHavoc bool                                // a call without contract (or `modifies *`) happened: the frame cannot be established
+	freshEpochs  map[int]*freshEpoch                 // epochs created by `modifies fresh`: untouched arrays keep their old content at old objects
+	prevVals     map[*ssa.BasicBlock]map[string]Term // loop head -> values of named variables right after the havoc
+	inline       []*ssa.Call                         // calls of contract-less, loop-free repository functions that are being executed inline
+	localChans   []string                            // channels made by this function that do not escape (see chanEscapes)
+	epoch        int                                 // >0 after a havoc-all: untouched heap variables are unknown, not initial
 }
 
 func newState() *State {
@@ -72,7 +72,7 @@ func (s *State) fork() *State {
 		vals: make(map[ssa.Value]Term, len(s.vals)), locs: make(map[ssa.Value]Loc, len(s.locs)),
 		tuples: make(map[ssa.Value][]Term, len(s.tuples)), iters: make(map[ssa.Value]*iterState, len(s.iters)),
 		closures: make(map[string]closureInfo, len(s.closures)),
-		heap: make(map[string]string, len(s.heap)), env: make(map[string]ssa.Value, len(s.env)),
+		heap:     make(map[string]string, len(s.heap)), env: make(map[string]ssa.Value, len(s.env)),
 		envAddr: make(map[string]bool, len(s.envAddr)), inLoop: make(map[*ssa.BasicBlock]bool, len(s.inLoop)),
 	}
 	for k, v := range s.vals {
